@@ -4,17 +4,18 @@ def _j(fn, what, **kw):
     d.update(kw)
     return d
 _CONV = ["strBaseToInt32", "strBaseToUInt32", "strBaseToInt64", "strBaseToUInt64", "strToFloat", "strToDouble"]
+_GAP = "callers of strBaseTo*/strTo* establish only that the literal's first byte is readable; NUL-boundedness of the parameter buffer (required where the helpers are enforced, conv.*) is established at the SCPI_Input -> SCPI_Parse boundary (dispatch.SCPI_Input) but not carried through the handler and parameter contracts"
 JOBS = [
  _j("SCPI_Parameter", "parameter cursor: end (-109 / optional absent), separator (-103), classification (-151), item delivered whole", replace=["SCPI_ErrorPush", "scpiLex_Comma", "scpiParser_parseProgramData"]),
  _j("SCPI_ParamIsNumber", "token class test", props=["C05", "C04", "C01"]),
- _j("ParamSignToUInt32", "token class -> base 16/8/2/10 and signedness", replace=["SCPI_ErrorPush", "strBaseToInt32", "strBaseToUInt32"], props=["C05", "C04", "C01"]),
- _j("ParamSignToUInt64", "token class -> base and signedness", replace=["SCPI_ErrorPush", "strBaseToInt64", "strBaseToUInt64"], props=["C05", "C04", "C01"]),
+ _j("ParamSignToUInt32", "token class -> base 16/8/2/10 and signedness", replace=["SCPI_ErrorPush", "strBaseToInt32", "strBaseToUInt32"], props=["C05", "C04", "C01"], assumes=[_GAP]),
+ _j("ParamSignToUInt64", "token class -> base and signedness", replace=["SCPI_ErrorPush", "strBaseToInt64", "strBaseToUInt64"], props=["C05", "C04", "C01"], assumes=[_GAP]),
  _j("SCPI_ParamToInt32", "wrapper", replace=["ParamSignToUInt32"], props=["C05", "C04", "C01"]),
  _j("SCPI_ParamToUInt32", "wrapper", replace=["ParamSignToUInt32"], props=["C05", "C04", "C01"]),
  _j("SCPI_ParamToInt64", "wrapper", replace=["ParamSignToUInt64"], props=["C05", "C04", "C01"]),
  _j("SCPI_ParamToUInt64", "wrapper", replace=["ParamSignToUInt64"], props=["C05", "C04", "C01"]),
- _j("SCPI_ParamToFloat", "numeric token -> float (nondecimal through the 32-bit integer path)", replace=["SCPI_ErrorPush", "SCPI_ParamToUInt32", "strToFloat"], props=["C05", "C04", "C01"]),
- _j("SCPI_ParamToDouble", "numeric token -> double (nondecimal through the 64-bit integer path)", replace=["SCPI_ErrorPush", "SCPI_ParamToUInt64", "strToDouble"], props=["C05", "C04", "C01"]),
+ _j("SCPI_ParamToFloat", "numeric token -> float (nondecimal through the 32-bit integer path)", replace=["SCPI_ErrorPush", "SCPI_ParamToUInt32", "strToFloat"], props=["C05", "C04", "C01"], assumes=[_GAP]),
+ _j("SCPI_ParamToDouble", "numeric token -> double (nondecimal through the 64-bit integer path)", replace=["SCPI_ErrorPush", "SCPI_ParamToUInt64", "strToDouble"], props=["C05", "C04", "C01"], assumes=[_GAP]),
  _j("ParamSignUInt32", "typed reader decision table", replace=["SCPI_ErrorPush", "SCPI_Parameter", "SCPI_ParamIsNumber", "ParamSignToUInt32"]),
  _j("ParamSignUInt64", "typed reader decision table", replace=["SCPI_ErrorPush", "SCPI_Parameter", "SCPI_ParamIsNumber", "ParamSignToUInt64"]),
  _j("SCPI_ParamInt32", "wrapper", replace=["ParamSignUInt32"]),
@@ -27,3 +28,8 @@ JOBS = [
  _j("SCPI_ParamArbitraryBlock", "block reader: -104 for other types", replace=["SCPI_ErrorPush", "SCPI_Parameter"]),
  _j("SCPI_ParamCopyText", "bounded un-quoting copy (loop contract): at most buffer_len bytes, NUL when shorter", replace=["SCPI_ErrorPush", "SCPI_Parameter"], props=["C05", "C15", "C07", "C01"], need_classes=["loop_invariant"]),
 ]
+for _fn, _lib in (("strBaseToInt32", "strtol"), ("strBaseToUInt32", "strtoul"), ("strBaseToInt64", "strtoll"), ("strBaseToUInt64", "strtoull"), ("strToFloat", "strtof"), ("strToDouble", "strtod")):
+    JOBS.append(dict(name="conv." + _fn, props=["C04", "C05", "C01"], kind="P", harness="h_conv.c", entry="h_" + _fn, enforce=_fn, contracts=["param.h"], defines=["CONV_ENFORCE"], loops=False,
+        replace=[_lib], timeout=600, cost=5, trust=["%s: assumed libc contract (contracts/libc.h), observed through ghosts" % _lib],
+        
+        what="exactly one call of %s with the caller's base; stores what it returned, returns the characters it used" % _lib))
